@@ -92,3 +92,60 @@ def expected_head(m, st, major, arg):
 
 def fmt_stream(s):
     return '[' + ', '.join(repr(x) if not isinstance(x, Int) or not x.is_const() else '%#04x' % x.c for x in s) + ']'
+
+
+# ---------------------------------------------------------------------------
+# decoder tables
+
+class DRow:
+    def __init__(self, prog, o):
+        self.st = o.st
+        self.kind = o.kind
+        self.events = list(o.st.events)
+        self.flags = set(o.st.flags)
+        self.why = o.why
+        if o.kind == 'return':
+            self.result, self.value = l1.describe_result(prog, o.value)
+        else:
+            self.result, self.value = 'diverge', None
+        self.raw = o.value
+
+    def consumed(self):
+        return [e for e in self.events if e[0] in ('READ1', 'READN', 'READSLICE')]
+
+    def eoi(self):
+        return [e for e in self.events if e[0] == 'EOI']
+
+    def cell(self):
+        syms = set()
+        for e in self.events:
+            if e[0] in ('READ1', 'CUR'):
+                syms.add(e[1])
+            elif e[0] == 'READN':
+                syms.add(e[2])
+            elif e[0] == 'PEEK':
+                syms.add(e[1])
+        return l1.fmt_cell(self.st, syms)
+
+
+_dec_cache = {}
+
+
+def dec_rows(prog, path, max_configs=6000):
+    key = (id(prog), path)
+    if key in _dec_cache:
+        return _dec_cache[key]
+    inst = prog.one(path)
+    if inst is None:
+        _dec_cache[key] = None
+        return None
+    m = l1.decoder_machine(prog, max_configs=max_configs)
+    st = State()
+    body = inst['body']
+    names = dict((l, n) for l, n in body['names'])
+    args = [m.make_value(st, body['locals'][i], names.get(i, 'a%d' % i)) for i in range(1, body['argc'] + 1)]
+    outs = m.run(inst, args, st)
+    rows = [DRow(prog, o) for o in outs]
+    res = (inst, rows, m)
+    _dec_cache[key] = res
+    return res
